@@ -301,12 +301,16 @@ func (st *implState) exec(t []string) string {
 	}
 	h := st.hs[hi]
 	switch t[0] {
-	case "write", "writestring", "writeat":
+	case "write", "writestring", "writeat", "readfrom":
 		b := corr.UnHex(t[2])
 		pre := h.srv()
 		var n int
 		var err error
 		switch t[0] {
+		case "readfrom": // io.Copy into the handle from a reader that offers nothing but Read and hands its last bytes out with io.EOF
+			var n64 int64
+			n64, err = io.Copy(h.f, &eofDataReader{data: b})
+			n = int(n64)
 		case "write":
 			n, err = h.f.Write(b)
 		case "writestring":
@@ -371,4 +375,19 @@ func c19RunImpl(c corr.Case) []string {
 		}))
 	}
 	return out
+}
+
+// eofDataReader returns its last bytes together with io.EOF (as io.Reader allows) and offers nothing but Read
+type eofDataReader struct {
+	data []byte
+	off  int
+}
+
+func (r *eofDataReader) Read(p []byte) (int, error) {
+	n := copy(p, r.data[r.off:])
+	r.off += n
+	if r.off == len(r.data) {
+		return n, io.EOF
+	}
+	return n, nil
 }
